@@ -13,14 +13,25 @@ PROPS = ["DirtyRule", "SaveWritesContent", "ErrKeeps"]
 MUT = {"append", "insert", "delitem"}
 
 
-def edit_ops(rnd, plain, length, init_syms, edit_syms):
-    lines = [rnd.choice(init_syms) for _ in range(rnd.randint(0, 6))]
+def edit_ops(rnd, plain, length, init_syms, edit_syms, read_heavy=False):
+    """read_heavy: a longer file, mostly reads of neighbouring lines and saves with an occasional edit (the access pattern of a
+    program that walks through a file) - recorded with sparse observations, so that nothing else touches the object in between"""
+    lines = [rnd.choice(init_syms) for _ in range(rnd.randint(6, 12) if read_heavy else rnd.randint(0, 6))]
     ops = [{"op": "new", "lines": lines, "plain": plain}]
     n = len(lines)
+    kinds = ["setitem", "delitem", "insert", "append", "extend", "iadd", "pop", "remove", "reverse", "len", "get", "slice",
+             "list", "save", "index"]
+    if read_heavy:
+        kinds = ["get"] * 10 + ["save"] * 4 + ["pop", "setitem", "delitem", "insert", "len", "slice"]
+    prev = 0
     for _ in range(length):
-        k = rnd.choice(["setitem", "delitem", "insert", "append", "extend", "iadd", "pop", "remove", "reverse", "len", "get", "slice",
-                        "list", "save", "index"])
+        k = rnd.choice(kinds)
         i = rnd.randint(-n - 1, n)
+        if read_heavy and n > 0:
+            i = rnd.choice([prev, prev + 1, prev + 1, prev - 1, 0, i])
+            i = i if -n <= i < n else 0
+            if k == "get":
+                prev = i % n
         s = rnd.choice(edit_syms + init_syms)
         if k == "setitem":
             ops.append({"op": k, "i": i, "s": s})
@@ -80,9 +91,11 @@ def run(ctx, name="MutableLineFile", plain_only=True, adapters_fn=None, init_sym
     traces = []
     isyms = [int(x) for x in init_syms.strip("{}").split(",")]
     esyms = [int(x) for x in edit_syms.strip("{}").split(",")]
-    for i in range(12 if quick else 120):
+    for i in range(24 if quick else 240):
         ad = ads[i % len(ads)]
-        t = record(ad, edit_ops(rnd, 1 if ad.plain else 0, 120, isyms, esyms))
+        # every second round of the variants is recorded with sparse observations
+        sp = (i // len(ads)) % 2 == 1
+        t = record(ad, edit_ops(rnd, 1 if ad.plain else 0, 120, isyms, esyms, read_heavy=sp), sparse=rnd if sp else None)
         if t is not None:
             traces.append(t)
     good = split_failed(traces, ctx, name)
